@@ -736,3 +736,287 @@ func runC19Clamp(c *Ctx) {
 		c.Errorf("no acos/asin call found in any Forward body (expected AzimuthalEquidistant)")
 	}
 }
+
+func init() {
+	register(&Rule{
+		ID:    "C19.pair",
+		Props: []string{"C19"},
+		Doc:   "Forward and Reverse of each projection use the same configuration constants: every maximal configuration-only subexpression of Reverse that is passed to a function or combined with the argument (cone constant n, C, F, G, rho0, origin/centre in radians, P) is structurally identical to one of Forward's — a Reverse that computes n from the wrong parallel, or rho0 from a different formula, cannot invert Forward",
+		Floor: 9,
+		Run:   runC19Pair,
+	})
+	register(&Rule{
+		ID:    "C19.angle",
+		Props: []string{"C19"},
+		Doc:   "angle units: values in degrees (the lon/lat argument of Forward, and configuration fields stored straight from a setter's parameter) reach a trigonometric function or are combined with radian values only through dtor; results of Reverse pass through rtod/rtodxy (or are computed from degree-scaled constants)",
+		Floor: 18,
+		Run:   runC19Angle,
+	})
+}
+
+// configOnly: v depends only on receiver fields and constants (not on the
+// function's argument).
+func configOnly(v ssa.Value, arg *ssa.Parameter, memo map[ssa.Value]int) bool {
+	if r, ok := memo[v]; ok {
+		return r == 1
+	}
+	memo[v] = 1
+	res := true
+	switch x := v.(type) {
+	case *ssa.Parameter:
+		res = x != arg
+	case *ssa.Const, *ssa.Global, *ssa.Function:
+	case *ssa.Alloc:
+		// local holding a copy of the argument?
+		for _, r := range *x.Referrers() {
+			if st, ok := r.(*ssa.Store); ok && st.Addr == x && !configOnly(st.Val, arg, memo) {
+				res = false
+			}
+		}
+	default:
+		var ops []*ssa.Value
+		if in, ok := v.(ssa.Instruction); ok {
+			for _, op := range in.Operands(ops) {
+				if op != nil && *op != nil && !configOnly(*op, arg, memo) {
+					res = false
+				}
+			}
+		}
+	}
+	if res {
+		memo[v] = 1
+	} else {
+		memo[v] = 2
+	}
+	return res
+}
+
+func runC19Pair(c *Ctx) {
+	for _, p := range cartoProjections(c) {
+		collect := func(f *ssa.Function) map[string]ssa.Value {
+			arg := f.Params[1]
+			memo := map[ssa.Value]int{}
+			out := map[string]ssa.Value{}
+			eachInstr(f, func(in ssa.Instruction) {
+				v, ok := in.(ssa.Value)
+				if !ok || !isFloat(v.Type()) {
+					return
+				}
+				if !configOnly(v, arg, memo) {
+					return
+				}
+				// maximal: some user is not config-only (it meets the argument) — or it is a call result
+				maximal := false
+				for _, r := range *v.Referrers() {
+					if rv, ok := r.(ssa.Value); ok {
+						if !configOnly(rv, arg, memo) {
+							maximal = true
+						}
+					} else {
+						maximal = true
+					}
+				}
+				if !maximal {
+					return
+				}
+				if _, isLoad := v.(*ssa.UnOp); isLoad {
+					return // plain field reads are not constants worth comparing
+				}
+				s, ok := accessPath(v)
+				if ok {
+					out[s] = v
+				}
+			})
+			return out
+		}
+		rv := collect(p.reverse)
+		// every configuration-only float expression of Forward (not only the maximal ones)
+		fwAll := map[string]bool{}
+		{
+			memo := map[ssa.Value]int{}
+			eachInstr(p.forward, func(in ssa.Instruction) {
+				if v, ok := in.(ssa.Value); ok && isFloat(v.Type()) && configOnly(v, p.forward.Params[1], memo) {
+					if s, ok := accessPath(v); ok {
+						fwAll[s] = true
+					}
+				}
+			})
+		}
+		// covered: equal to a Forward expression, or trivial glue (sign, 1/x, -x, scaling by a plain
+		// field or constant) around a covered expression
+		var covered func(v ssa.Value, d int) bool
+		isPlain := func(v ssa.Value) bool {
+			v = stripLoad(v)
+			switch x := v.(type) {
+			case *ssa.Const:
+				return true
+			case *ssa.UnOp:
+				_, isFA := x.X.(*ssa.FieldAddr)
+				_, isIA := x.X.(*ssa.IndexAddr)
+				return x.Op == token.MUL && (isFA || isIA)
+			case *ssa.Field:
+				return true
+			}
+			return false
+		}
+		covered = func(v ssa.Value, d int) bool {
+			v = stripLoad(v)
+			if d > 6 {
+				return false
+			}
+			if isPlain(v) {
+				return true
+			}
+			if s, ok := accessPath(v); ok && fwAll[s] {
+				return true
+			}
+			switch x := v.(type) {
+			case *ssa.BinOp:
+				if x.Op == token.MUL || x.Op == token.QUO {
+					if isPlain(x.X) {
+						return covered(x.Y, d+1)
+					}
+					if isPlain(x.Y) {
+						return covered(x.X, d+1)
+					}
+				}
+			case *ssa.UnOp:
+				if x.Op == token.SUB {
+					return covered(x.X, d+1)
+				}
+			case *ssa.Call:
+				if calleeName(x) == "carto.sign" {
+					return covered(x.Call.Args[0], d+1)
+				}
+			}
+			return false
+		}
+		var missing []string
+		for s, v := range rv {
+			if !covered(v, 0) {
+				missing = append(missing, s)
+			}
+		}
+		sort.Strings(missing)
+		fn := FuncName(p.reverse)
+		if len(missing) == 0 {
+			c.OK(p.reverse.Pos(), fn, "configuration constants shared with Forward", fmt.Sprintf("all %d configuration-only expressions of Reverse also occur in Forward", len(rv)))
+		} else {
+			c.Bad(p.reverse.Pos(), fn, "configuration constants shared with Forward", "Reverse uses a configuration constant that Forward does not compute: "+trunc(missing[0])+" — the two directions are parameterised differently and cannot be inverses")
+		}
+	}
+}
+
+func runC19Angle(c *Ctx) {
+	trig := map[string]bool{"carto.sin": true, "carto.cos": true, "carto.tan": true, "carto.sec": true, "carto.cot": true, "math.Sin": true, "math.Cos": true, "math.Tan": true}
+	for _, p := range cartoProjections(c) {
+		// degree-valued fields: stored from a setter/constructor parameter (or a field of it) with no dtor on the way
+		degField := map[*types.Var]bool{}
+		for _, m := range p.methods {
+			if m == p.forward || m == p.reverse {
+				continue
+			}
+			eachInstr(m, func(in ssa.Instruction) {
+				st, ok := in.(*ssa.Store)
+				if !ok {
+					return
+				}
+				addr := st.Addr
+				var fv *types.Var
+				for k := 0; k < 6; k++ {
+					switch a := addr.(type) {
+					case *ssa.FieldAddr:
+						if v := fieldVar(a.X.Type(), a.Field); v != nil && v.Pkg() != nil && v.Pkg().Name() == "carto" {
+							fv = v
+						}
+						addr = a.X
+						continue
+					case *ssa.IndexAddr:
+						addr = a.X
+						continue
+					}
+					break
+				}
+				if fv == nil {
+					return
+				}
+				b, _ := baseObject(st.Val)
+				if _, isParam := b.(*ssa.Parameter); isParam {
+					degField[fv] = true
+				}
+			})
+		}
+		for _, f := range []*ssa.Function{p.forward, p.reverse} {
+			fn := FuncName(f)
+			isDeg := func(v ssa.Value) bool {
+				// a load whose root is the Forward argument or a degree field
+				b, _ := baseObject(v)
+				if f == p.forward && b == ssa.Value(f.Params[1]) {
+					return true
+				}
+				cur := v
+				for k := 0; k < 8; k++ {
+					switch x := cur.(type) {
+					case *ssa.UnOp:
+						cur = x.X
+						continue
+					case *ssa.IndexAddr:
+						cur = x.X
+						continue
+					case *ssa.FieldAddr:
+						if fv := fieldVar(x.X.Type(), x.Field); fv != nil && degField[fv] {
+							return true
+						}
+						cur = x.X
+						continue
+					case *ssa.Field:
+						if fv := fieldVar(x.X.Type(), x.Field); fv != nil && degField[fv] {
+							return true
+						}
+						cur = x.X
+						continue
+					}
+					break
+				}
+				return false
+			}
+			// carriesDeg: value is a degree quantity not yet converted (through + - and unary minus)
+			var carries func(v ssa.Value, d int) bool
+			carries = func(v ssa.Value, d int) bool {
+				v = stripLoad(v)
+				if d > 6 {
+					return false
+				}
+				if isFloat(v.Type()) && isDeg(v) {
+					return true
+				}
+				switch x := v.(type) {
+				case *ssa.BinOp:
+					if x.Op == token.ADD || x.Op == token.SUB {
+						return carries(x.X, d+1) || carries(x.Y, d+1)
+					}
+				case *ssa.UnOp:
+					if x.Op == token.SUB {
+						return carries(x.X, d+1)
+					}
+				}
+				return false
+			}
+			bad := ""
+			var pos token.Pos
+			eachCall(f, func(call ssa.CallInstruction) {
+				if !trig[calleeName(call)] {
+					return
+				}
+				for _, a := range call.Common().Args {
+					if carries(a, 0) {
+						as, _ := accessPath(a)
+						bad = "a value in degrees (" + trunc(as) + ") is passed to " + calleeName(call) + " without dtor"
+						pos = call.Pos()
+					}
+				}
+			})
+			c.Check(bad == "", firstValid(pos, f.Pos()), fn, "degrees reach trigonometric functions only through dtor", "every trig argument is free of unconverted degree values", bad)
+		}
+	}
+}
